@@ -1,0 +1,33 @@
+//go:build verif
+
+package network
+
+import "github.com/icon-project/goloop/module"
+
+// Add-only hooks for /verif property C30 (packet framing). Thin wrappers, no logic.
+
+// VerifC30NewPacket builds a packet the way senders do: NewPacket, then the
+// header fields and the extension (newPacketExtendInfo + ext) are assigned.
+func VerifC30NewPacket(pi, spi uint16, src []byte, dest, ttl byte, payload []byte, hint byte, ext []byte) *Packet {
+	pkt := NewPacket(module.ProtocolInfo(pi), module.ProtocolInfo(spi), payload)
+	pkt.src = NewPeerID(src)
+	pkt.dest = dest
+	pkt.ttl = ttl
+	pkt.extendInfo = newPacketExtendInfo(hint, len(ext))
+	pkt.ext = ext
+	return pkt
+}
+
+// VerifC30Fields returns the non-transient fields of a packet.
+func VerifC30Fields(p *Packet) (pi, spi uint16, src []byte, dest, ttl byte, length uint32, hash uint64, info uint16, payload, ext []byte) {
+	if p.src != nil {
+		src = p.src.Bytes()
+	}
+	return p.protocol.Uint16(), p.subProtocol.Uint16(), src, p.dest, p.ttl, p.lengthOfPayload,
+		p.hashOfPacket, uint16(p.extendInfo), p.payload, p.ext
+}
+
+// VerifC30ExtendInfo exposes the packetExtendInfo accessors.
+func VerifC30ExtendInfo(info uint16) (hint byte, length int) {
+	return packetExtendInfo(info).hint(), packetExtendInfo(info).len()
+}
